@@ -291,6 +291,15 @@ def check_scoped_deletes(ctx, f):
             continue
         ctx.analysed_fns.add(p)
         scoped = cfg.cond_edges(b, atom_call=lambda t: (norm_fn(t.get("fn")) or "").endswith("Option::is_some") and ".scope" in ((b.operand_origin(t["args"][0]) or (0, ()))[1]))
+        # `if let Some(_) = &self.scope` / `match self.scope { Some(..) => .. }`: the Some edge of a discriminant switch on the field
+        seeds = []
+        for sb_, sw_ in b.switches():
+            src_ = b.bool_operand_source(sw_["op"])
+            if src_ and src_["kind"] == "discr" and ".scope" in src_["origin"][1] and (src_.get("ty") or "").startswith("core::option::Option"):
+                vs_ = src_.get("vars") or {}
+                some_ = [(sb_, tb_) for v_, tb_ in sw_["targets"] if vs_.get(v_) == "Some"]
+                seeds += some_ if some_ else ([(sb_, sw_["otherwise"])] if any(vs_.get(v_) == "None" for v_, _ in sw_["targets"]) else [])
+        scoped = list(scoped) + seeds + (list(cfg.cond_edges(b, seed_edges=seeds)) if seeds else [])
         resets = [bi for bi, t in b.calls() if (callee(t) or "").endswith("op_set::OpSet::reset_top")]
         records = [bi for bi, blk in enumerate(b.blocks) for st in blk["st"] if st["d"]["p"] and st["d"]["p"][-1] == ".reset_range"]
         for k, (bi, t) in util.ordinal_keys(adds, lambda it, nm=norm_fn(p).split("::")[-1]: "%s|successors added" % nm):
